@@ -777,6 +777,89 @@ class Gen(object):
         for v in variants:
             self.features.add('array_family:' + (v or 'bare'))
 
+    def gen_late_callback_family(self):
+        """compounds with NON-anonymous fields typed by named callback typedefs and alias chains over them, where the
+        callback only turns out non-introspectable late in IntrospectablePass (fixed-point loop / parameter analysis
+        of a later declaration): the field must then be written non-introspectable too, or the compiler cannot resolve
+        its type.  Roots: va_list parameter, long double (direct or aliased), variadic, a (skip)ped type, another
+        non-introspectable callback, an unknown type; plus an introspectable control."""
+        r = self.rng
+        fam = self.uid('Lc')
+        made = []          # (kind, decl list, type name usable in a field)
+
+        def cb(name, params, ret=None):
+            return {'d': 'typedef', 'name': name, 'type': {'k': 'ptr', 'to': {'k': 'func', 'ret': ret or T('int'), 'params': params}}}
+        roots = r.sample(['va_list', 'long_double', 'long_double_alias', 'variadic', 'skipped_type', 'nested_callback', 'unknown',
+                          'long_double_return', 'ok'], r.randint(2, 6))
+        for root in roots:
+            name = '%s%s%s' % (self.idp, fam, ''.join(w.capitalize() for w in root.split('_')))
+            decls = []
+            if root == 'va_list':
+                decls.append(cb(name + 'Func', [{'name': 'fmt', 'type': P(T('char', 2))}, {'name': 'args', 'type': T('va_list')}]))
+            elif root == 'long_double':
+                decls.append(cb(name + 'Func', [{'name': 'w', 'type': T('long double')}]))
+            elif root == 'long_double_return':
+                decls.append(cb(name + 'Func', [{'name': 'x', 'type': T('int')}], ret=T('long double')))
+            elif root == 'long_double_alias':
+                decls.append({'d': 'typedef', 'name': name + 'Weight', 'type': T('long double')})
+                decls.append(cb(name + 'Func', [{'name': 'w', 'type': T(name + 'Weight')}]))
+            elif root == 'variadic':
+                decls.append(cb(name + 'Func', [{'name': 'fmt', 'type': P(T('char', 2))}, {'ellipsis': True}]))
+            elif root == 'skipped_type':
+                decls.append({'d': 'struct', 'name': '_' + name + 'Sk', 'fields': [{'name': 'v', 'type': T('int')}]})
+                decls.append({'d': 'typedef', 'name': name + 'Sk', 'type': {'k': 'struct', 'n': '_' + name + 'Sk'}})
+                self.block(name + 'Sk', desc='Skipped.', ann='(skip)')
+                decls.append(cb(name + 'Func', [{'name': 's', 'type': P(T(name + 'Sk'))}]))
+            elif root == 'nested_callback':
+                decls.append(cb(name + 'Inner', [{'name': 'args', 'type': T('va_list')}]))
+                decls.append(cb(name + 'Func', [{'name': 'inner', 'type': T(name + 'Inner')}, {'name': 'data', 'type': T('gpointer')}]))
+            elif root == 'unknown':
+                decls.append(cb(name + 'Func', [{'name': 'u', 'type': P(T('FooUnknownThing'))}]))
+            else:
+                decls.append(cb(name + 'Func', [{'name': 'x', 'type': T('int')}, {'name': 'user_data', 'type': T('gpointer')}]))
+            tname = name + 'Func'
+            # alias chain of depth 0-3 over the callback
+            for k in range(r.choice([0, 0, 1, 2, 3])):
+                decls.append({'d': 'typedef', 'name': '%sAl%d' % (name, k), 'type': T(tname)})
+                tname = '%sAl%d' % (name, k)
+                self.features.add('late_callback:alias-depth-%d' % (k + 1))
+            made.append((root, decls, tname))
+            self.features.add('late_callback:' + root)
+        # the compounds using them, declared before or after the callbacks
+        containers = []
+        for ci in range(r.randint(1, 3)):
+            kind = r.choice(['struct', 'struct', 'union'])
+            cname = '%s%s%s%d' % (self.idp, fam, 'Ops' if kind == 'struct' else 'Any', ci)
+            fields = [{'name': 'id', 'type': T('int')}]
+            for root, _d, tname in r.sample(made, r.randint(1, len(made))):
+                fields.append({'name': 'f_' + root, 'type': T(tname)})
+                if self.p(0.3):
+                    fields.append({'name': 'p_' + root, 'type': P(T(tname))})
+            if kind == 'struct' and self.p(0.5):
+                fields.insert(r.randint(0, len(fields)), {'name': 'vt', 'type': self.fn_pointer(self.p(0.5))})
+            if self.p(0.4):
+                fields.append({'name': 'tail', 'type': P(T('char'))})
+            containers.append([{'d': kind, 'name': '_' + cname, 'fields': fields},
+                               {'d': 'typedef', 'name': cname, 'type': {'k': kind, 'n': '_' + cname}}])
+            self.records.append((cname, kind))
+            self.features.add('late_callback:in-' + kind)
+        if self.uses_gobject and self.classes and self.p(0.5):
+            pass    # class instance structs are generated by gen_class; see below for a field added there
+        groups = [d for _r, d, _t in made]
+        order = r.choice(['callbacks-first', 'compounds-first', 'mixed'])
+        self.features.add('late_callback:order:' + order)
+        if order == 'callbacks-first':
+            seq = groups + containers
+        elif order == 'compounds-first':
+            seq = containers + groups
+        else:
+            seq = groups + containers
+            r.shuffle(seq)
+        for g in seq:
+            for d_ in g:
+                self.add(d_)
+        self.features.add('late_callback')
+
     def gen_shadow_pair(self):
         """foo_do and foo_do_full (rename-to foo_do): shadowed-by / shadows"""
         a = '%s_%s' % (self.symp, self.uid('act'))
@@ -821,6 +904,14 @@ class Gen(object):
         if self.p(0.5):
             fields.append({'name': 'priv', 'type': P(T(cname + 'Private')), 'private': True})
             self.features.add('private_field')
+        if self.p(0.25):
+            # a public member typed by a named callback typedef that takes a va_list (declared after the class)
+            lname = '%s%sLogFunc' % (self.idp, name)
+            fields.append({'name': 'log', 'type': T(lname)})
+            self._after_class = getattr(self, '_after_class', []) + [
+                {'d': 'typedef', 'name': lname, 'type': {'k': 'ptr', 'to': {'k': 'func', 'ret': T('void'), 'params': [
+                    {'name': 'fmt', 'type': P(T('char', 2))}, {'name': 'args', 'type': T('va_list')}]}}}]
+            self.features.add('late_callback:in-class')
         opaque_instance = self.p(0.2)
         if opaque_instance:
             self.add({'d': 'typedef', 'name': cname, 'type': {'k': 'struct', 'n': '_' + cname}})
@@ -848,6 +939,9 @@ class Gen(object):
             self.add({'d': 'typedef', 'name': cname + 'Class', 'type': {'k': 'struct', 'n': '_%sClass' % cname}})
         gt = '%s_%s_get_type' % (self.symp, lower)
         self.add({'d': 'function', 'name': gt, 'ret': T('GType'), 'params': []})
+        for d_ in getattr(self, '_after_class', []):
+            self.add(d_)
+        self._after_class = []
         self.classes.append(cname)
         self.features.add('class')
         # invoker methods for vfuncs
@@ -1003,6 +1097,8 @@ class Gen(object):
                 self.gen_interface()
         if self.p(0.5) or self.boost.get('array_family'):
             self.gen_array_family()
+        if self.p(0.45) or self.boost.get('late_callback'):
+            self.gen_late_callback_family()
         if self.uses_gio and self.p(0.8):
             self.add({'d': 'function', 'name': '%s_do_async' % self.symp, 'ret': T('void'),
                       'params': [{'name': 'cancellable', 'type': P(T('GCancellable'))},
@@ -1711,6 +1807,15 @@ def classify_compiler(rc, err, root, state_names):
             out.append(('compiler:fatal:accessor-of-introspectable-0-property', 'g-ir-compiler dies: ' + err[-300:]))
         else:
             out.append(('compiler:fatal:unknown-property-for-accessor', 'g-ir-compiler dies: ' + err[-300:]))
+    elif rc != 0 and re.search(r"Can't resolve type '([^']+)' for field (\S+)", err):
+        m = re.search(r"Can't resolve type '([^']+)' for field (\S+)", err)
+        tn = m.group(1).split('.')[-1]
+        target = [e for e in (root.find(qn('namespace')) if root is not None else []) if e.get('name') == tn]
+        if target and hidden(target[0]):
+            out.append(('compiler:error:field-typed-by-introspectable-0-%s' % local(target[0].tag),
+                        'an introspectable <field> names a type the GIR marks introspectable="0"; g-ir-compiler fails: ' + err[-300:]))
+        else:
+            out.append(('compiler:error:field-type-unresolved', 'g-ir-compiler fails: ' + err[-300:]))
     elif rc != 0 and "required attribute 'transfer-ownership' missing" in err and root is not None and any(
             rv.get('skip') == '1' and rv.get('transfer-ownership') is None for rv in root.iter(qn('return-value'))):
         out.append(('compiler:error:missing-transfer-ownership:return-value-skip', 'g-ir-compiler fails: ' + err[-300:]))
@@ -2390,10 +2495,11 @@ def replay(ctx, rep):
         print('outside the property: %s' % probs)
         return 0
     hit = False
-    for key, msg in probs:
-        print('FAILS %s: %s' % (key, msg[:500]))
-        hit = True
     want = r.get('finding')
+    for key, msg in probs:
+        print('%s %s: %s' % ('FAILS' if key not in PENDING_FINDINGS or key == want else 'PENDING', key, msg[:500]))
+        if key not in PENDING_FINDINGS or key == want:
+            hit = True
     if want:
         print('finding %s %s' % (want, 'REPRODUCED' if any(k == want for k, _ in probs) else 'not reproduced'))
     return 1 if hit else 0
